@@ -27,6 +27,11 @@ def spawn(wl_path, mode, oseed, hashseed):
 
 def work_C14(run, rng, budget):
     ops = []
+    for _ in range(4 * budget):   # D/T atoms with a non-zero V2000 charge code: state that may leak between reads
+        m = G.gen_mol(rng, family="charged_dt")
+        sizes(run, m)
+        text, _ = RD.render_v2000(m, rng, {"use_codes": True, "dt": True, "decoy_codes": False})
+        ops.append(["tucan_of_molfile", text])
     for _ in range(25 * budget):
         m = G.gen_mol(rng, max_n=14)
         sizes(run, m)
